@@ -10,7 +10,7 @@ Theorem flip_rank_geometry (s:N) : s < 64 ->
   flip_rank_sq s < 64 /\ flip_rank_sq (flip_rank_sq s) = s /\
   fileZ (flip_rank_sq s) = fileZ s /\ rankZ (flip_rank_sq s) = (7 - rankZ s)%Z.
 Proof.
-  intro Hs. repeat split; [apply flip_rank_lt, Hs|apply flip_rank_invol|
+  intro Hs. refine (conj _ (conj _ (conj _ _))); [apply flip_rank_lt, Hs|apply flip_rank_invol|
                            apply flip_rank_fileZ, Hs|apply flip_rank_rankZ, Hs].
 Qed.
 
@@ -18,7 +18,7 @@ Theorem flip_file_geometry (s:N) : s < 64 ->
   flip_file_sq s < 64 /\ flip_file_sq (flip_file_sq s) = s /\
   fileZ (flip_file_sq s) = (7 - fileZ s)%Z /\ rankZ (flip_file_sq s) = rankZ s.
 Proof.
-  intro Hs. repeat split; [apply flip_file_lt, Hs|apply flip_file_invol|
+  intro Hs. refine (conj _ (conj _ (conj _ _))); [apply flip_file_lt, Hs|apply flip_file_invol|
                            apply flip_file_fileZ, Hs|apply flip_file_rankZ, Hs].
 Qed.
 
@@ -36,7 +36,7 @@ Theorem mirror_v_board (p:pos) : length (placement p) = 64%nat ->
   (forall c s, enemy (mirror_v p) (opp c) (flip_rank_sq s) = enemy p c s) /\
   mirror_v (mirror_v p) = p.
 Proof.
-  intro Hl. repeat split.
+  intro Hl. refine (conj _ (conj _ (conj _ (conj _ (conj _ _))))).
   - intro s. apply at_mirror_v, Hl.
   - apply occ_v, Hl.
   - apply has_v, Hl.
@@ -53,7 +53,7 @@ Theorem mirror_h_board (p:pos) : length (placement p) = 64%nat ->
   (forall c s, enemy (mirror_h p) c (flip_file_sq s) = enemy p c s) /\
   (no_rights p -> mirror_h (mirror_h p) = p).
 Proof.
-  intro Hl. repeat split.
+  intro Hl. refine (conj _ (conj _ (conj _ (conj _ (conj _ _))))).
   - intro s. apply at_mirror_h, Hl.
   - apply occ_h, Hl.
   - apply has_h, Hl.
@@ -73,7 +73,7 @@ Theorem mirror_v_attacks (p:pos) : length (placement p) = 64%nat ->
                            (map flip_rank_sq (attackers p c t))) /\
   (forall c t, attacked_by (mirror_v p) (opp c) (flip_rank_sq t) = attacked_by p c t).
 Proof.
-  intro Hl. repeat split.
+  intro Hl. refine (conj _ (conj _ (conj _ (conj _ _)))).
   - intros. apply ray_v; assumption.
   - intros. apply attack_set_v; assumption.
   - intros. apply attacks_v; assumption.
@@ -91,7 +91,7 @@ Theorem mirror_h_attacks (p:pos) : length (placement p) = 64%nat ->
                            (map flip_file_sq (attackers p c t))) /\
   (forall c t, attacked_by (mirror_h p) c (flip_file_sq t) = attacked_by p c t).
 Proof.
-  intro Hl. repeat split.
+  intro Hl. refine (conj _ (conj _ (conj _ (conj _ _)))).
   - intros. apply ray_h; assumption.
   - intros. apply attack_set_h; assumption.
   - intros. apply attacks_h; assumption.
@@ -150,16 +150,14 @@ Theorem mirror_v_main (p:pos) : WFpos p ->
      apply (mirror_v p) (mirror_v_move m) = mirror_v (apply p m) /\ WFpos (apply p m)).
 Proof.
   intro W. pose proof (WFpos_uniq p W) as U. pose proof W as [Hl _].
-  repeat split.
+  refine (conj _ (conj _ (conj _ (conj _ _)))).
   - apply legal_v; assumption.
   - apply status_v; assumption.
   - apply checkers_v; assumption.
   - apply pinned_v; assumption.
-  - pose proof H as H'. unfold legal_moves in H'. apply filter_In in H'. destruct H' as [H' _].
+  - intros m H. split; [|apply (legal_WF p m W H)].
+    pose proof H as H'. unfold legal_moves in H'. apply filter_In in H'. destruct H' as [H' _].
     destruct (pseudo_facts _ _ H') as [Hs [Hd _]]. apply apply_v; assumption.
-  - apply (legal_WF p m W H).
-  - apply (legal_WF p m W H).
-  - apply (legal_WF p m W H).
 Qed.
 
 Theorem mirror_v_legal_iff (p:pos) (m:move) : WFpos p ->
@@ -179,15 +177,13 @@ Theorem mirror_h_main (p:pos) : WFpos p -> no_rights p ->
      apply (mirror_h p) (mirror_h_move m) = mirror_h (apply p m) /\ WFpos (apply p m)).
 Proof.
   intros W NR. pose proof (WFpos_uniq p W) as U. pose proof W as [Hl _].
-  repeat split.
+  refine (conj _ (conj _ (conj _ (conj _ _)))).
   - apply legal_h; assumption.
   - apply status_h; assumption.
   - apply checkers_h; assumption.
   - apply pinned_h; assumption.
-  - apply apply_legal_h; assumption.
-  - apply (legal_WF p m W H).
-  - apply (legal_WF p m W H).
-  - apply (legal_WF p m W H).
+  - intros m H. split; [|apply (legal_WF p m W H)].
+    apply apply_legal_h; assumption.
 Qed.
 
 Theorem mirror_h_legal_iff (p:pos) (m:move) : WFpos p -> no_rights p ->
@@ -243,7 +239,7 @@ Example ex_no_rights : no_rights ex3 /\ no_rights ex4.
 Proof. repeat split. Qed.
 
 Example ex1_moves :
-  length (legal_moves ex1) = 25%nat /\ length (legal_moves (mirror_v ex1)) = 25%nat /\
+  length (legal_moves ex1) = 17%nat /\ length (legal_moves (mirror_v ex1)) = 17%nat /\
   legal_moves (mirror_v ex1) <> map mirror_v_move (legal_moves ex1) /\
   has_move (mv 4 6) (legal_moves ex1) = true /\ has_move (mv 60 62) (legal_moves (mirror_v ex1)) = true /\
   has_move (mv 4 2) (legal_moves ex1) = true /\ has_move (mv 60 58) (legal_moves (mirror_v ex1)) = true /\
@@ -277,7 +273,7 @@ Example ex1_apply :
 Proof. vm_compute. repeat split. Qed.
 
 Example ex3_moves :
-  length (legal_moves ex3) = 23%nat /\ length (legal_moves (mirror_h ex3)) = 23%nat /\
+  length (legal_moves ex3) = 15%nat /\ length (legal_moves (mirror_h ex3)) = 15%nat /\
   legal_moves (mirror_h ex3) <> map mirror_h_move (legal_moves ex3) /\
   has_move (mv 36 43) (legal_moves ex3) = true /\ has_move (mv 35 44) (legal_moves (mirror_h ex3)) = true.
 Proof. vm_compute. repeat split; try reflexivity. discriminate. Qed.
